@@ -1577,7 +1577,7 @@ impl<'w> Gen<'w> {
 /// (admin `-` = no admin, missing entries = the deployer); everything else is `Config::default()`.
 pub fn cfg_token(c: &Config) -> String {
     let admins: Vec<String> = c.collection_admins.iter().map(|a| a.clone().unwrap_or_else(|| "-".to_string())).collect();
-    format!("cfg=U{};F{};T{};C{};N{};H{};O{};A{}", c.n_users, c.n_filler_denoms, c.n_cw20, c.n_cw721, c.nfts_per_user_per_collection, c.n_hostile, u8::from(c.odd_token_ids), admins.join(","))
+    format!("cfg=U{};F{};T{};C{};N{};H{};O{};S{};X{};A{}", c.n_users, c.n_filler_denoms, c.n_cw20, c.n_cw721, c.nfts_per_user_per_collection, c.n_hostile, u8::from(c.odd_token_ids), c.start_time_ns, c.extra_token_ids.len(), admins.join(","))
 }
 
 pub fn cfg_from_token(tok: &str) -> Option<Config> {
@@ -1593,6 +1593,8 @@ pub fn cfg_from_token(tok: &str) -> Option<Config> {
             "N" => c.nfts_per_user_per_collection = v.parse().ok()?,
             "H" => c.n_hostile = v.parse().ok()?,
             "O" => c.odd_token_ids = v == "1",
+            "S" => c.start_time_ns = v.parse().ok()?,
+            "X" => c.extra_token_ids = (0..v.parse::<usize>().ok()?).map(|i| format!("x{:03}", i)).collect(),
             "A" => {
                 c.collection_admins = if v.is_empty() { vec![] } else { v.split(',').map(|a| if a == "-" { None } else { Some(a.to_string()) }).collect() }
             }
